@@ -97,6 +97,9 @@ pub fn oracle(s: &ProgScene<X>, t: &Trace) -> Vec<Violation> {
                 // (a) submitted (completed, accepted) before any stop request was issued
                 if let (Some(end), Some(fs)) = (o.end, first_stop_begin) {
                     let accepted_msg = if is_call { true } else { o.ok() };
+                    if end < fs && accepted_msg {
+                        crate::check::oblige("drain-before-stop");
+                    }
                     if end < fs && accepted_msg && !(handled && o.ok()) {
                         out.push(Violation {
                             clause: "drain-before-stop",
@@ -116,6 +119,7 @@ pub fn oracle(s: &ProgScene<X>, t: &Trace) -> Vec<Violation> {
                 // (b) submitted after an accepted stop request returned
                 if let Some(fa) = first_accepted {
                     if o.begin > fa {
+                        crate::check::oblige("barrier-after-stop");
                         if entered {
                             out.push(Violation {
                                 clause: "barrier-after-stop",
@@ -160,6 +164,7 @@ pub fn oracle(s: &ProgScene<X>, t: &Trace) -> Vec<Violation> {
                 // a halt/consume whose stop was rejected (actor already gone) returns early with an error
                 let rejected = matches!(op, Op::Halt(_) | Op::Consume(_)) && !o.ok();
                 if !failing && !rejected {
+                    crate::check::oblige("announce-after-stopped");
                     match stopped_exit {
                         Some(se) if end > se => {}
                         _ => out.push(Violation {
@@ -171,6 +176,9 @@ pub fn oracle(s: &ProgScene<X>, t: &Trace) -> Vec<Violation> {
                 }
                 let want_ok = !failing;
                 let is_second_join = false;
+                if !rejected {
+                    crate::check::oblige(if failing { "verdict-on-failure" } else { "verdict-on-graceful" });
+                }
                 if !rejected && !is_second_join && o.ok() != want_ok {
                     out.push(Violation {
                         clause: "verdict-matches-termination",
@@ -312,6 +320,7 @@ pub fn property() -> Property {
     Property {
         id: "C04",
         cases,
+        clauses: &["drain-before-stop", "barrier-after-stop", "announce-after-stopped", "verdict-on-failure", "verdict-on-graceful"],
         assumptions: &["a stop request counts as issued at the begin of the client operation that carries it, and as accepted when that operation (or Context::stop inside the handler) returned Ok"],
     }
 }
